@@ -151,10 +151,10 @@ def funs_coq(o):
         san[g["devgas"]["params"]] = g["devgas"]["params_sanitized"]
     tp = o["tables"]["tfparse"]
     return ("{| f_hash := tbl1 %s 4999; f_code_empty := fun c => Nat.eqb c %d; f_ftid := tbl2 %s 4999; "
-            "f_tfparse := tblp %s; f_tfdefmd := tbl1 %s 0; f_dgsan := tbl1 %s 0 |}") % (
+            "f_tfparse := tblp %s; f_tfdefmd := tbl1 %s 0; f_dgsan := tbl1 %s 0; f_pairjson := tblid %s |}") % (
         pl(sorted(hashes.items())), o["tables"].get("empty_code", 0),
         L("(%d, %d, %d)" % (a, b, k) for (a, b), k in sorted(ftids.items())),
-        L("(%d, (%d, %d))" % (d, c, s) for d, c, s, _ in tp), pl([(d, m) for d, _, _, m in tp]), pl(sorted(san.items())))
+        L("(%d, (%d, %d))" % (d, c, s) for d, c, s, _ in tp), pl([(d, m) for d, _, _, m in tp]), pl(sorted(san.items())), pl(o["tables"].get("pairjson", [])))
 
 
 def to_coq_case(rec):
@@ -219,6 +219,8 @@ def classify(rec):
                     ("votes", g["oracle"]["votes"]), ("rewards", g["oracle"]["rewards"]), ("feeders", g["oracle"]["feeders"])):
         if l:
             ks.append("exported:" + name)
+    for c in rec.get("strings", []):
+        ks.append("mixed-case-string:" + c)
     st = rec["obs"]["s1"]
     # many-to-one relations (several keys of a collection share one value)
     def shared(vals):
